@@ -32,11 +32,11 @@ for crate in command lib bin; do
   if echo "$files" | grep -q "^$crate/\| $crate/"; then
     case $crate in
       command) t="cargo test --offline -p sozu-command-lib";;
-      lib) t="cargo test --offline -p sozu-lib --lib -- --skip socket::stats::test_rtt --skip http::tests::keep_alive --skip tcp::tests::round_trip";;
+      lib) t="unshare -n bash -c 'ip link set lo up; cargo test --offline -p sozu-lib --lib -- --skip socket::stats::test_rtt'";;  # private netns: the lib tests bind fixed ports
       bin) t="cargo test --offline -p sozu";;
     esac
     echo "== existing tests with the mutation: $t" >> $log
-    timeout 3000 bash -c "$t" >> $log 2>&1 || tests_ok=0
+    timeout 1500 bash -c "$t" >> $log 2>&1 || tests_ok=0
   fi
 done
 if [ "$e2e" = "--e2e" ]; then
